@@ -1,4 +1,4 @@
-From Tab Require Export Run.Glue Run.C05Run Model.Csv.
+From Tab Require Export Run.Glue Run.C05Run Model.Csv Run.PipeRun.
 
 (* one case: the table's view and, for each target (renderer x style), what
    Render() did: 0 = returned a string and nil error, 1 = returned an error,
@@ -22,7 +22,14 @@ Definition C09_corr (v : view) (outs : list (nat * nat * list N)) : bool :=
     | _ => true
     end) outs.
 
-Definition C09_case (c : view * list (nat * nat * list N)) : N :=
-  let '(v, outs) := c in code (C09_corr v outs) (C09_ok outs).
+(* a case: the table's view with all its renders, and - when the harness could
+   write the build as a history of the table machine's operations - the
+   pipeline case for the same table (Run/PipeRun.v) *)
+Definition c09case := (view * list (nat * nat * list N) * option pipe_case)%type.
 
-Definition C09_model (c : view * list (nat * nat * list N)) := class_of (csv_render (fst c)).
+Definition C09_case (c : c09case) : N :=
+  let '(v, outs, p) := c in
+  code (C09_corr v outs && match p with Some pc => pipe_corr pc | None => true end) (C09_ok outs).
+
+Definition C09_model (c : c09case) :=
+  let '(v, outs, p) := c in (class_of (csv_render v), option_map pipe_model p).
